@@ -1,13 +1,31 @@
 """C06 -- deep copies of a tree are independent of the original.
 
-E1: BFS over interleavings of deepcopy / AST edits on up to 3 trees.  After every event every class
-of every tree is flattened (on a deep copy of that tree, the way the SymPy/XML backends do; thorough
-also in place on a throw-away copy made by pickling) and compared with a *fresh parse of the library
-to which only that tree's own edits were applied* -- so an edit must be visible in its own tree and
-invisible in all others, whatever the copy ancestry.
+E1: BFS over histories of three kinds of event on up to 3 live trees:
+
+  copy(i)            tree_n = copy.deepcopy(tree_i)
+  edit(i, op, K)     add/remove symbol/equation/class through the AST API
+  obs(i, route, K)   flatten class K ('*' = every class, one after the other) of the *live* tree i through
+                     route in {inplace: tree.flatten(tree_i, K); sympy / xml: the backend's generate(tree_i, K),
+                     which deep-copies the tree and flattens the copy} -- the result is compared with the
+                     reference, and the event stays in the history: whatever the implementation remembers of
+                     an observation (inside the tree or outside it) is there when the tree is later copied,
+                     edited and observed again.
+
+Reference: a *fresh parse of the library to which only that tree's own edits were applied*, observed
+through the same route -- so an edit must be visible in its own tree and invisible in all others,
+whatever the copy ancestry and whatever was observed before.  The reference results are computed before
+the exploration starts (in other processes), so computing them never runs in between two events of a history.
+
+After every event each tree is additionally observed on its own throw-away replay of the history
+(`final observations': flatten(deepcopy(tree)) the way the backends do, plus every route an earlier obs
+event of the history went through -- a route can only have left something behind if it was used -- plus,
+thorough, flatten(tree) in place in any case; classes in the reverse order of obs(.., '*'), so that the
+class observed last is the first to be observed again).  Being made on a replay that is then discarded,
+they are not part of the history that is extended.
 """
+import hashlib
+import itertools
 import json
-import pickle
 
 from vf.core import bfs, common, dump
 
@@ -46,10 +64,24 @@ end Top;
 """
 
 EDIT_CLASSES = ["Leaf", "Base", "Top"]
-FLAT_CLASSES = ["Leaf", "Base", "Mid", "Top", "Extra"]
+# order of obs(i, route, '*'); Top (reaches every other class) last, the class that exists only after add_class first
+FLAT_CLASSES = ["Extra", "Leaf", "Base", "Mid", "Top"]
 OPS = ["add_symbol", "add_equation", "remove_equation", "remove_symbol", "add_class", "remove_class"]
+EDIT_ACTIONS = [(op, cls) for op in OPS for cls in (EDIT_CLASSES if op != "add_class" else ["-"])]
+OBS_ROUTES = ["inplace", "sympy", "xml"]  # routes of obs events (xml = deepcopy + flatten + rendering, so a bare
+#                                           'copy' route as an event would add nothing to it)
+BACKENDS = ["sympy", "xml"]
+KIND = {"copy": "flat", "inplace": "flat", "sympy": "sympy", "xml": "xml"}
+ROUTE_TEXT = {
+    "copy": "tree.flatten(deepcopy(tree), K)",
+    "inplace": "tree.flatten(tree, K)",
+    "sympy": "backends.sympy.generator.generate(tree, K)",
+    "xml": "backends.xml.generator.generate(tree, K)",
+}
 MAX_TREES = 3
-_CFG = {"tier": "quick"}
+MAX_OBS = 2
+BOUNDS = {"quick": (3, 2), "thorough": (4, 3)}  # history length, deviations (edits + obs events)
+_CFG = {"tier": "quick", "obs_classes": ["*"]}
 _EXPECT = {}
 
 
@@ -93,28 +125,56 @@ def apply_edit(tree, op, cls, serial):
         raise ValueError(op)
 
 
-def flat_result(tree, cls):
+def _sha(text):
+    return hashlib.sha1(text.encode()).hexdigest()[:16]
+
+
+def observe(tree, route, cls):
+    """('ok', digest of the flat model / generated text) or ('exc', exception type) of one request."""
+    import copy
+
     from pymoca import ast
     from pymoca import tree as ptree
 
     try:
-        flat = ptree.flatten(tree, ast.ComponentRef.from_string(cls))
-        return ("ok", json.dumps(ast.Node.to_json(flat), sort_keys=True, default=repr))
+        if route in ("copy", "inplace"):
+            t = copy.deepcopy(tree) if route == "copy" else tree
+            flat = ptree.flatten(t, ast.ComponentRef.from_string(cls))
+            return ("ok", _sha(json.dumps(ast.Node.to_json(flat), sort_keys=True, default=repr)))
+        if route == "sympy":
+            from pymoca.backends.sympy import generator as sympy_gen
+
+            return ("ok", _sha(sympy_gen.generate(tree, cls)))
+        if route == "xml":
+            from pymoca.backends.xml import generator as xml_gen
+
+            return ("ok", _sha(xml_gen.generate(tree, cls)))
     except Exception as e:
         return ("exc", type(e).__name__)
+    raise ValueError(route)
 
 
-def expected(edits):
-    """Flatten results of a fresh parse with exactly `edits` applied (memoised per worker)."""
-    if edits not in _EXPECT:
-        res = {}
+def _expect_job(edits):
+    """Reference results of one edit list: every class through every kind of route, each on its own fresh parse."""
+    res = {}
+    for kind, route in (("flat", "inplace"), ("sympy", "sympy"), ("xml", "xml")):
+        res[kind] = {}
         for cls in FLAT_CLASSES:
             t = fresh_tree()
             for n, (op, k) in enumerate(edits):
                 apply_edit(t, op, k, n)
-            res[cls] = flat_result(t, cls)
+            res[kind][cls] = observe(t, route, cls)
+    return edits, res
+
+
+def prepare_expected(edit_lists, pool=None):
+    todo = [e for e in edit_lists if e not in _EXPECT]
+    for edits, res in (pool.map(_expect_job, todo) if pool is not None else map(_expect_job, todo)):
         _EXPECT[edits] = res
-    return _EXPECT[edits]
+
+
+def expected(edits, route, cls):
+    return _EXPECT[tuple(edits)][KIND[route]][cls]  # KeyError = bug of the check (table is built up front)
 
 
 class World:
@@ -122,8 +182,10 @@ class World:
         self.trees = [fresh_tree()]
         self.edits = [()]
         self.parent = [None]
+        self.obslog = ()  # (tree, route, class, number of edits of that tree so far, number of trees so far)
 
     def apply(self, ev):
+        """Returns the violations of the event itself (only obs events are compared with anything)."""
         import copy
 
         if ev[0] == "copy":
@@ -131,54 +193,70 @@ class World:
             self.trees.append(copy.deepcopy(self.trees[i]))
             self.edits.append(self.edits[i])
             self.parent.append(i)
-        else:
+            return []
+        if ev[0] == "edit":
             _, i, op, cls = ev
             apply_edit(self.trees[i], op, cls, len(self.edits[i]))
             self.edits[i] = self.edits[i] + ((op, cls),)
+            return []
+        _, i, route, cls = ev
+        self.obslog = self.obslog + ((i, route, cls, len(self.edits[i]), len(self.trees)),)
+        classes = FLAT_CLASSES if cls == "*" else [cls]
+        return self.look(i, [route], classes, "obs event")
 
-    def check(self):
-        import copy
-
+    def look(self, i, routes, classes, what):
         viol = []
-        for i, t in enumerate(self.trees):
-            exp = expected(self.edits[i])
-            for cls in FLAT_CLASSES:
-                modes = [("flatten(deepcopy(tree))", lambda: copy.deepcopy(t))]
-                if _CFG["tier"] == "thorough":
-                    modes.append(("flatten(tree) in place [on a pickled clone]", lambda: pickle.loads(pickle.dumps(t))))
-                for mname, mk in modes:
-                    got = flat_result(mk(), cls)
-                    if got != exp[cls]:
-                        other = [j for j in range(len(self.trees)) if j != i and expected(self.edits[j])[cls] == got]
-                        kind = "sees-other-tree" if other else "wrong-result"
-                        viol.append(
-                            (
-                                "%s:%s" % (kind, "exception" if got[0] == "exc" else "model"),
-                                "tree %d (edits %r, copied from %r): %s of %s gives %s, expected %s%s"
-                                % (i, list(self.edits[i]), self.parent[i], mname, cls, _short(got), _short(exp[cls]),
-                                   "; that is what tree(s) %r should give" % other if other else ""),
-                            )
-                        )
+        for route in routes:
+            for cls in classes:
+                got = observe(self.trees[i], route, cls)
+                exp = expected(self.edits[i], route, cls)
+                if got == exp:
+                    continue
+                other = [j for j in range(len(self.trees)) if j != i and expected(self.edits[j], route, cls) == got]
+                past = [n for n in range(len(self.edits[i])) if expected(self.edits[i][:n], route, cls) == got]
+                kind = "sees-other-tree" if other else "sees-own-past" if past else "wrong-result"
+                sig = "%s:%s" % (kind, "exception" if got[0] == "exc" else "model")
+                if route in BACKENDS:
+                    sig += ":" + route
+                why = ""
+                if other:
+                    why = "; that is what tree(s) %r should give" % other
+                elif past:
+                    why = "; that is what this tree gave when it had only its first %r edit(s)" % past
+                viol.append(
+                    (
+                        sig,
+                        "%s: tree %d (edits %r, copied from %r, observed before: %r): %s for K=%s gives %s, expected %s%s"
+                        % (what, i, list(self.edits[i]), self.parent[i], [list(o[:3]) for o in self.obslog],
+                           ROUTE_TEXT[route], cls, "%s:%s" % got, "%s:%s" % exp, why),
+                    )
+                )
         return viol
 
+    def final(self, i):
+        """Final observations of tree i (on a world that is discarded afterwards)."""
+        seen = {o[1] for o in self.obslog}
+        routes = [r for r in BACKENDS if r in seen] + ["copy"]
+        if "inplace" in seen or _CFG["tier"] == "thorough":
+            routes.append("inplace")  # last: the only route that works on the live tree itself
+        return self.look(i, routes, FLAT_CLASSES[::-1], "final observation")
+
     def key(self):
-        return (tuple(self.edits), tuple(self.parent), dump.digest(self.trees))
+        return (tuple(self.edits), tuple(self.parent), self.obslog, dump.digest(self.trees))
 
     def events(self):
         evs = []
         if len(self.trees) < MAX_TREES:
             evs += [("copy", i) for i in range(len(self.trees))]
         for i in range(len(self.trees)):
-            for op in OPS:
-                for cls in (EDIT_CLASSES if op != "add_class" else ["-"]):
-                    evs.append(("edit", i, op, cls))
+            for op, cls in EDIT_ACTIONS:
+                evs.append(("edit", i, op, cls))
+        if len(self.obslog) < MAX_OBS:
+            for i in range(len(self.trees)):
+                for route in OBS_ROUTES:
+                    for cls in _CFG["obs_classes"]:
+                        evs.append(("obs", i, route, cls))
         return evs
-
-
-def _short(r):
-    import hashlib
-
-    return "%s:%s" % (r[0], r[1] if len(r[1]) < 60 else "<model sha %s>" % hashlib.sha1(r[1].encode()).hexdigest()[:8])
 
 
 def build(hist):
@@ -188,51 +266,83 @@ def build(hist):
     return w
 
 
+def step(hist, ev):
+    """Violations and successor key of `ev` after `hist`; every tree's final observations on a replay of its own."""
+    w = build(hist)
+    viol = list(w.apply(ev))
+    key = w.key()
+    for i in range(len(w.trees)):
+        wi = w if i == 0 else build(tuple(hist) + (ev,))
+        viol += wi.final(i)
+    return key, viol
+
+
 def expand(hist):
     out = []
     for ev in build(hist).events():
-        w = build(hist)
+        dev = 0 if ev[0] == "copy" else 1
         try:
-            w.apply(ev)
-            viol = w.check()
+            key, viol = step(hist, ev)
         except Exception as e:
             viol = [("exception-in-api:" + common.exc_sig(e), "%r raised %r" % (ev, e))]
-            out.append({"ev": list(ev), "key": ("exc", repr(ev), repr(hist)), "viol": viol, "stop": True, "dev": 1 if ev[0] == "edit" else 0})
+            out.append({"ev": list(ev), "key": ("exc", repr(ev), repr(hist)), "viol": viol, "stop": True, "dev": dev})
             continue
-        out.append({"ev": list(ev), "key": w.key(), "viol": viol, "stop": bool(viol), "dev": 1 if ev[0] == "edit" else 0})
+        out.append({"ev": list(ev), "key": key, "viol": viol, "stop": bool(viol), "dev": dev})
     return out
+
+
+def edit_lists(max_edits):
+    return [tuple(p) for n in range(max_edits + 1) for p in itertools.product(EDIT_ACTIONS, repeat=n)]
 
 
 def run(ctx):
     _init(ctx.tier)
-    depth, max_edits = (3, 2) if ctx.tier == "quick" else (5, 3)
-    with common.Pool(init=_init, initargs=(ctx.tier,)) as pool:
-        st = bfs.search(ctx, pool, expand, init_key=build(()).key(), max_depth=depth, max_dev=max_edits)
+    depth, max_dev = BOUNDS[ctx.tier]
+    with common.Pool() as pool:  # reference table first, in processes of its own
+        prepare_expected(edit_lists(max_dev), pool)
+    with common.Pool(init=_init, initargs=(ctx.tier,)) as pool:  # forked now: workers inherit the table
+        st = bfs.search(ctx, pool, expand, init_key=build(()).key(), max_depth=depth, max_dev=max_dev)
     ctx.coverage.update(st)
     ctx.coverage.update(
         {
             "traces_validated_against_impl": st["transitions"],
             "evaluations": st["transitions"],
             "distinct_nontrivial": max(0, st["states"] - 1),
+            "reference_edit_lists": len(_EXPECT),
             "exhaustive": True,
-            "bound": {"history_length": depth, "edits": max_edits, "trees": MAX_TREES},
-            "rule": "all histories of length <= %d with <= %d edits over {deepcopy(tree_i)} x {add/remove symbol, "
-            "add/remove equation, remove class on Leaf (component type) / Base (base of an extends) / Top, add class} on "
-            "up to %d trees; after every event every class of every tree is flattened and compared with a fresh parse "
-            "carrying only that tree's edits; state = per-tree edit lists + copy ancestry + joint structural fingerprint"
-            % (depth, max_edits, MAX_TREES),
+            "bound": {"history_length": depth, "edits_plus_obs_events": max_dev, "obs_events": MAX_OBS, "trees": MAX_TREES},
+            "rule": "all histories of length <= %d with <= %d deviations (edit or obs events, <= %d obs) over "
+            "{deepcopy(tree_i)} x {add/remove symbol, add/remove equation, remove class on Leaf (component type) / Base "
+            "(base of an extends) / Top, add class} x {obs: every class of the live tree_i through tree.flatten in "
+            "place / sympy generate / xml generate, checked and kept in the history} on up to %d trees; after every "
+            "event every tree is observed on a replay of its own (flatten of a deep copy; every route an earlier obs "
+            "event went through; thorough: flatten in place always); reference = fresh parse carrying only that tree's edits, same route, "
+            "computed up front; state = per-tree edit lists + copy ancestry + log of obs events (tree, route, tree's "
+            "edit count, number of trees at that time) + joint structural fingerprint of the live trees"
+            % (depth, max_dev, MAX_OBS, MAX_TREES),
         }
     )
     ctx.assumptions.append("edits are applied through the AST API exactly as test/ast_test.py does")
+    ctx.assumptions.append(
+        "state the implementation keeps outside the trees survives from one replayed history to the next inside a "
+        "worker process (nothing resets it); the unchanged tree keeps none (same result for every seed / job count)"
+    )
 
 
 def replay(case):
     _init("thorough")
-    w = World()
+    hist = [tuple(ev) for ev in case["history"]]
+    lists, per_tree = {()}, [()]
+    for ev in hist:  # which edit lists occur: their reference results are computed before the history starts
+        if ev[0] == "copy":
+            per_tree.append(per_tree[ev[1]])
+        elif ev[0] == "edit":
+            per_tree[ev[1]] = per_tree[ev[1]] + ((ev[2], ev[3]),)
+            lists.add(per_tree[ev[1]])
+    prepare_expected(sorted(p[:n] for p in lists for n in range(len(p) + 1)))
     ok = True
-    for ev in case["history"]:
-        w.apply(tuple(ev))
-        v = w.check()
-        print(ev, "->", [m for _, m in v] or "ok")
+    for n in range(len(hist)):
+        _, v = step(hist[:n], hist[n])
+        print(hist[n], "->", [m for _, m in v] or "ok")
         ok = ok and not v
     return ok
